@@ -12,7 +12,7 @@ STEPS = [1.0, 0.5, 0.1, 0.2, 0.3, 0.25, 2.5, 5.0, 0.7]
 RULE = (
     'Planted and noisy datasets (water levels from -1350 to +2400 mm) x grid steps {1, .5, .1, .2, .3, .25, 2.5, 5, '
     '.7} mm x curve kind {rise, recession}: the curve is assembled without a reference (origin must be the highest '
-    'level), then re-assembled with -r k*step for the levels k of the curve (quick: <= 24 per combination, thorough: '
+    'level), then re-assembled with -r k*step for the levels k of the curve (quick: <= 16 per combination, thorough: '
     'all up to 250; level 0 always when the curve spans it), passed as the float k*step and, through the CLI, as the decimal text a user would type '
     '("%.10g"); the walker recomputes the master curve from the base tables and requires 0 at level k (1e-6 s / 1e-9 '
     'mm).  Off-grid references (k + {.5, .25, .01, .001}) * step must be refused with nothing written.  Non-trivial: '
@@ -22,20 +22,20 @@ ASSUMPTIONS = [
     'only levels present in the assembled curve are used as references',
     'harness convenience: the curve tables are emptied between two references on the same classified dataset',
 ]
-SIZES = {'quick': dict(datasets=2, steps=3, levels=24, cli=6), 'thorough': dict(datasets=2, steps=9, levels=250, cli=36)}
+SIZES = {'quick': dict(datasets=2, steps=3, levels=16, cli=6), 'thorough': dict(datasets=2, steps=9, levels=250, cli=36)}
 REQUIRED = {
     tier: {
-        'on-grid-references-accepted-and-origin-checked': 300,
+        'on-grid-references-accepted-and-origin-checked': 200,
         'off-grid-references-refused': 40,
         'default-origin-checked': 10,
-        'references-inexact-in-binary': 100,
+        'references-inexact-in-binary': 60,
         'references-via-cli-text': 10,
         'negative-references': 50,
         'references-equal-to-zero': 4,
     }
     for tier in ('quick', 'thorough')
 }
-MIN_NONTRIVIAL = {'quick': 100, 'thorough': 3000}
+MIN_NONTRIVIAL = {'quick': 60, 'thorough': 3000}
 
 
 def curve_rows(connection, kind):
